@@ -16,7 +16,7 @@ EXPLANATION = ('Decides the structural part of literal denotation: (R11.1) decim
 NOT_DECIDED = ['256-bit decimal conversion arithmetic (num.rs)', 'bit order of the padding loop in parse_binary', 'std str::parse::<uN> correctness']
 ASSUMPTIONS = ['std integer parsing denotes the mathematical value and rejects overflow and the empty string']
 
-LIT = re.compile(r'^(value::UIntValue::(parse_decimal|parse_binary|u1|u2|u4)|value::Value::parse_hexadecimal|types::UIntType::(from_bit_width|bit_width|byte_width)|num::(NonZero)?Pow2Usize::new|<num::U256 as std::str::FromStr>::from_str|<error::Error as std::convert::From<(std::)?num::ParseIntError>>::from)$')
+LIT = re.compile(r'^(value::UIntValue::(parse_decimal|parse_binary|u1|u2|u4)|value::Value::parse_hexadecimal|types::UIntType::(from_bit_width|bit_width|byte_width)|num::Pow2Usize::new|<num::U256 as std::str::FromStr>::from_str|<error::Error as std::convert::From<(std::)?num::ParseIntError>>::from)$')
 
 
 def r_print(ctx):
@@ -87,7 +87,51 @@ def r_binary_bits(ctx):
     ctx.ob(rid, 'bits:step', facts['bitor1'] and facts['bitor2'], 'each bit is shifted in from the right: byte = (byte << 1) | u8::from(bit == \'1\'), starting from 0', fn.where(), str(facts))
 
 
+PRIMS = {'u8', 'u16', 'u32', 'u64', 'u128', 'usize'}
+
+
+def r_empty_decimal(ctx, rid='R11.7'):
+    """"Rejected when it contains no digit at all", decimal notation: the grammar token admits `_` only texts and the
+    separators are removed before conversion, so every string→integer converter called by parse_decimal has to reject
+    the empty string itself.  core's FromStr for the primitive integers does (IntErrorKind::Empty, a fact about core);
+    a converter defined in this crate has to show it in its own decision table: an error row guarded by an emptiness
+    test of its *untrimmed* argument, and no Ok row without the negation of that test."""
+    ctx.rule(rid, 'decimal literals without digits: every string→integer converter called by parse_decimal is core\'s FromStr of a primitive integer or a local converter with an error row guarded by is_empty(argument) on every path to Ok')
+    fx = ctx.facts()
+    fn = ctx.anchor(fx, 'value::UIntValue::parse_decimal')
+    n = 0
+    for bid, c, t in fn.calls():
+        inst = t['f'].get('inst') or ''
+        m = re.match(r'^core::str::<impl str>::parse::<(.*)>$', inst)
+        if not m:
+            continue
+        n += 1
+        ty = m.group(1)
+        if ty in PRIMS:
+            ctx.ob(rid, 'conv:' + ty, True, 'core::str::parse::<%s>: core rejects the empty string' % ty, fn.where(t.get('line')))
+            continue
+        path = '<%s as std::str::FromStr>::from_str' % ty
+        if path not in fx.F:
+            ctx.ob(rid, 'conv:' + ty, False, 'converter body available', fn.where(t.get('line')), 'no MIR for ' + path)
+            continue
+        conv = fx.F[path]
+        rows = guards.decision_table(ctx, conv)
+        arg = conv.names.get(1, 's')
+        test_t, test_f = 'is_empty(%s)=T' % arg, 'is_empty(%s)=F' % arg
+        err = [r for r in rows if r['out'].startswith('err') and test_t in r['conds']]
+        leaky = [r for r in rows if (r['out'].startswith('ok') or r['out'] in ('val', 'loop')) and test_f not in r['conds']]
+        ctx.ob(rid, 'conv:' + ty, bool(err) and not leaky, '%s rejects the empty string before anything else (row %s → Err; every other row under %s)' % (path, test_t, test_f), conv.where(),
+               None if err and not leaky else 'no error row guarded by %s' % test_t if not err else 'row reaching %s without the emptiness test: %s' % (leaky[0]['out'], leaky[0]['conds'][:2]))
+    ctx.floor(rid, 'string→integer conversions in parse_decimal', n, 9)
+    # the premise: the decimal token can consist of separators only
+    from ..grammar import Grammar
+    g = Grammar(fx.grammar)
+    toks = {name: shape for name, shape, ok, why in g.digit_tokens()}
+    ctx.ob(rid, 'premise:dec_literal', 'dec_literal' in toks, 'grammar token dec_literal is a digit/underscore class token (%s): digit-free texts reach the converter' % toks.get('dec_literal'), 'src/minimal.pest (dec_literal)')
+
+
 def check(ctx):
+    r_empty_decimal(ctx)
     r_binary_bits(ctx)
     ctx.rule('R11.1', 'decision tables of the literal converters (decimal/binary/hex, sub-byte ranges, power-of-two and width tables) equal the reviewed table')
     table = guards.load_table()
@@ -95,7 +139,7 @@ def check(ctx):
     paths = sorted(p for p in set(table) | set(guards.guard_functions(fx)) if LIT.match(p))
     n = guards.compare(ctx, 'R11.1', paths, table, 'literal converters')
     ctx.floor('R11.1', 'literal converter functions', len(paths), 10)
-    c07.r_uint_tables(ctx)
+    c07.r_uint_tables(ctx, only=c07.UINT_KEYS - {'as_integer:shifts'})   # the destructor table belongs to C07/C14
     c06.r_literal_classes(ctx)
     r_print(ctx)
     # ranges of the sub-byte constructors, read from the decision table rows of the current tree
